@@ -69,6 +69,13 @@ def run(ctx):
         o2 = rnd.choice([list(reversed(o1)), o1 + ['z'], o1[:-1], rnd.sample(V4, n)])
         if o1 != o2:
             cases.append({'op': 'mixorder', 'order1': o1, 'order2': o2, 't1': rnd.choice(o1), 't2': rnd.choice(o2), 'bop': rnd.choice(['and', 'or', 'xor'])})
+    # a variable outside the ordering must raise RuntimeError - also when that variable is in legal use in other live
+    # diagrams of the process (the unique table and any per-node bookkeeping are global)
+    for _ in range(600 if q else 10000):
+        order = rnd.sample(V4, rnd.choice([1, 2, 3]))
+        e = rand_expr(rnd, rnd.choice([1, 2]), V4)
+        pre = [(' | '.join(rnd.sample(V4, rnd.choice([2, 3, 4]))), rnd.sample(V4, 4))] if rnd.random() < 0.7 else []
+        cases.append({'op': 'build', 'notation': rnd.choice(['expr', 'lambda']), 'order': order, 'e': e, 'style': 'sym', 'pre': pre})
     events = bddfam.run_bool_events(ctx, cases)
     for e in events:
         o = e.get('out', {})
